@@ -156,7 +156,8 @@ class Engine:
             return sym
         if k == 'UnaryExprOrTypeTraitExpr':
             t = n.get('argType', {}).get('qualType')
-            if t is None and n.get('inner'): t = 'expr:' + self.render(n['inner'][0], p.copy())
+            if t is None and n.get('inner'):
+                t = strip(n['inner'][0]).get('type', {}).get('qualType') or ('expr:' + self.render(n['inner'][0], p.copy()))
             return f'sizeof({t})'
         if k == 'ConditionalOperator':
             # value-level ?: (conditions fork in cond_paths); keep syntactic
@@ -446,6 +447,10 @@ def _boolean_valued(n):
     return (k == 'BinaryOperator' and n.get('opcode') in ('&&', '||', '==', '!=', '<', '>', '<=', '>=')) or (k == 'UnaryOperator' and n.get('opcode') == '!')
 
 def _fold(op, a, b):
+    if op == '/':
+        import re as _re
+        m = _re.fullmatch(r'sizeof\((.+)\[(\d+)\]\)', a)
+        if m and b == f'sizeof({m.group(1)})': return m.group(2)       # ARRAY_SIZE idiom
     if a == b and op in ('==', '<=', '>='): return '1'
     if a == b and op in ('!=', '<', '>'): return '0'
     if _is_int(a) and _is_int(b):
